@@ -92,6 +92,7 @@ def r2_r3(ctx, facts):
                 if rep.dest[0] in locs:
                     cont = True
     r2.instance("resend-after-reprepare-ok", b.dominates(rep.bb, s2.bb) and cont, "the re-send must follow an awaited reprepare() that returned Ok", s2.span)
+    _every_unprepared(r2, facts, b, rep, [], "execution")
     # frames
     EX = "scylla_cql::frame::request::execute::ExecuteV2"
     QP = "scylla_cql::frame::request::query::QueryParameters"
@@ -283,6 +284,23 @@ def r2_batch(ctx, facts):
                "the UNPREPARED id must be searched in the statements of the batch that was sent (prepare_batch's output, also the frame's `statements`); statement handed to reprepare derives from prepare_batch: %s, frame derives from prepare_batch: %s" % (from_prepared, frame_ok), rep.span)
     errs = [bb for bb in b.live_blocks for st in b.stmts(bb) if st[0] == "A" and st[2][0] == "agg" and st[2][1][0] == "adt" and st[2][1][2] == "RepreparedIdMissingInBatch"]
     r.instance("unknown-id-is-error", bool(errs) and all(s.bb not in b.reachable_from(e) for e in errs), "UNPREPARED for an id that is not in the batch must be an error exit", s.span)
+    _every_unprepared(r, facts, b, rep, errs, "batch")
+
+
+def _every_unprepared(r, facts, b, rep, errs, what):
+    """whenever the answer is UNPREPARED the statement is re-prepared: from the edge on which the error is known to be
+    DbError::Unprepared no exit is feasibly reachable that bypasses reprepare (the `id not in this batch` error excepted)"""
+    from ..util import variant_edges, dj_of
+    dj = dj_of(b, facts)
+    edges = variant_edges(b, dj, "DbError", "Unprepared")
+    if not edges:
+        raise AnchorLost("%s: no branch that establishes DbError::Unprepared" % what)
+    for (u, v) in edges:
+        reach = dj.feasible_reach_edge(u, v, removed_nodes=[rep.bb] + list(errs))
+        bad = [x for x in b.exits if x in reach]
+        r.instance("every-unprepared-is-reprepared:" + what, not bad,
+                   "an UNPREPARED answer can reach the caller without a re-preparation (e.g. only the first one per request is handled): a %s whose statements "
+                   "were all evicted fails although every one of them could have been re-prepared" % what, b.term_span(u))
 
 
 def r4(ctx, facts):
